@@ -400,3 +400,11 @@ def finish(ctx, level, coverage, assumptions):
     if nviol == 0:
         print("OK property=%s tier=%s seed=%d wall=%.1fs" % (ctx.prop, ctx.tier, ctx.seed, time.time() - ctx.t0), flush=True)
     return 1 if nviol else 0
+
+
+def fatal_text(obs):
+    """FATAL:<hex> (the batch process died on this case with an unrecoverable runtime error)"""
+    try:
+        return bytes.fromhex(obs[6:]).decode("utf-8", "replace")
+    except ValueError:
+        return obs[6:]
